@@ -154,6 +154,12 @@ const TINY_QUICK: &[&str] = &[
     "gen:stored:gen:woff2-xf0",
     "gen:bitmap-ebdt",
     "gen:bitmap-cbdt",
+    // reference cycles
+    "gen:sbix-dupe-cycles",
+    "gen:composite-cycles-var",
+    "gen:cff-seac-mutual",
+    "gen:cff-local-global-cycle",
+    "gen:cff2-local-global-cycle",
 ];
 
 const TINY_THOROUGH: &[&str] = &[
@@ -194,7 +200,7 @@ fn field_plan(thorough: bool) -> Vec<FieldItem> {
         full.extend(TINY_THOROUGH.iter().filter_map(|n| find(n)));
         // every generated per-format seed
         for (i, s) in all.iter().enumerate() {
-            let generated = ["gen:cmap-", "gen:glyf-", "gen:var-", "gen:cff", "gen:gsub-", "gen:gpos-", "gen:c02:", "gen:stored:gen:", "gen:bitmap-"].iter().any(|p| s.name.starts_with(p));
+            let generated = ["gen:cmap-", "gen:glyf-", "gen:var-", "gen:cff", "gen:gsub-", "gen:gpos-", "gen:c02:", "gen:stored:gen:", "gen:bitmap-", "gen:sbix-", "gen:composite-cycles", "gen:lookup-"].iter().any(|p| s.name.starts_with(p));
             if generated && !full.contains(&i) {
                 full.push(i);
             }
@@ -518,6 +524,7 @@ fn fault_strategy(container_only: bool) -> BoxedStrategy<Fault> {
             4 => (any::<u32>(), any::<u32>()).prop_map(|(a, b)| Fault::SwapRecords { a, b }),
             3 => (any::<u32>(), any::<u32>()).prop_map(|(rec, other)| Fault::DuplicateTag { rec, other }),
             4 => (any::<u32>(), any::<u32>(), any::<bool>(), any::<u8>()).prop_map(|(region, pos, remove, n)| Fault::Splice { region, pos, remove, n }),
+            4 => rewire_strategy(),
         ]
         .boxed()
     } else {
@@ -531,9 +538,20 @@ fn fault_strategy(container_only: bool) -> BoxedStrategy<Fault> {
             3 => (0u8..6, any::<u32>()).prop_map(|(val_kind, val)| Fault::NumTables { val_kind, val }),
             2 => (any::<u32>(), prop::sample::select(vec![0x40u8, 0x80, 0xC0, 0x01])).prop_map(|(rec, xor)| Fault::Woff2Flags { rec, xor }),
             4 => (any::<u32>(), any::<u32>(), any::<bool>(), any::<u8>()).prop_map(|(region, pos, remove, n)| Fault::Splice { region, pos, remove, n }),
+            8 => rewire_strategy(),
         ]
         .boxed()
     }
+}
+
+/// 1-3 references of one kind rewired into a cycle (or a chain ending at a boundary index)
+fn rewire_strategy() -> impl Strategy<Value = Fault> {
+    (
+        any::<u32>(),
+        prop_oneof![2 => prop::collection::vec(any::<u32>(), 1..=1), 5 => prop::collection::vec(any::<u32>(), 2..=2), 3 => prop::collection::vec(any::<u32>(), 3..=3)],
+        prop::option::weighted(0.2, prop::sample::select(vec![0u32, 0xFFFF, 0xFFF0, 0x7FFF, 1])),
+    )
+        .prop_map(|(kind, picks, tail)| Fault::Rewire { kind, picks, tail })
 }
 
 fn fault_case_strategy() -> impl Strategy<Value = FaultCase> {
@@ -549,7 +567,13 @@ fn fault_case(c: &FaultCase, rec: &mut Rec) -> CaseResult {
     let mut bytes = s.bytes.clone();
     let mut descs = Vec::new();
     for f in &c.faults {
-        descs.push(apply(&mut bytes, f));
+        let d = apply(&mut bytes, f);
+        if let Some(rest) = d.strip_prefix("rewire ") {
+            if d.contains("->") {
+                rec.class(&format!("rewired:{}", rest.split(':').next().unwrap_or("?")));
+            }
+        }
+        descs.push(d);
         rec.class(&format!("fault:{}", f.kind_name()));
     }
     rec.class(seed_group(s));
